@@ -295,6 +295,11 @@ func (c *FnCtx) typeFacts(st *State, v *Term, t types.Type) {
 		c.addFact(st, ts.And(ts.Le(ts.Int(0), v), ts.Lt(v, st.wm)))
 	case *types.Array:
 		c.addFact(st, ts.Eq(ts.Len(v), ts.Int(u.Len())))
+	case *types.Interface:
+		if u.NumMethods() > 0 && v.kind != kLit {
+			// a value of an interface type with methods holds nil or a value of a named (boxed) type
+			c.addFactT(st, v, ts.Or(c.eng.tc.IsNilVal(v), ts.App("(_ is VBox)", SBool, v)))
+		}
 	case *types.Slice:
 		switch u.Elem().Underlying().(type) {
 		case *types.Pointer, *types.Map:
@@ -745,7 +750,7 @@ func (c *FnCtx) loopMeasureAt(fr *Frame, lc *LoopContract, st *State) *Term {
 	if gf == nil {
 		unsupported("decreases function %s missing", lc.Decr.Fn)
 	}
-	args := termArgs(fr.params)
+	args := c.currentParams(fr, st)
 	for _, o := range fr.fc.Olds {
 		args = append(args, fr.olds[o.Name])
 	}
@@ -800,7 +805,7 @@ func (c *FnCtx) loopInvs(fr *Frame, h *ssa.BasicBlock, ord int, lc *LoopContract
 		if gf == nil {
 			unsupported("invariant function %s missing", inv.Fn)
 		}
-		args := termArgs(fr.params)
+		args := c.currentParams(fr, st)
 		for _, o := range fr.fc.Olds {
 			args = append(args, fr.olds[o.Name])
 		}
@@ -904,4 +909,30 @@ func (fr *Frame) val(v ssa.Value) SymVal {
 	}
 	unsupported("use of undefined register %s (%T) in %s", v.Name(), v, fr.fn)
 	return nil
+}
+
+// currentParams: inside the body (loop invariants, loop measures) a parameter name denotes the current value of
+// the parameter variable, which Go allows to be reassigned; contracts' requires/ensures see the entry values.
+func (c *FnCtx) currentParams(fr *Frame, st *State) []*Term {
+	out := termArgs(fr.params)
+	for i, p := range fr.fn.Params {
+		refs := p.Referrers()
+		if refs == nil {
+			continue
+		}
+		for _, r := range *refs {
+			if sto, ok := r.(*ssa.Store); ok && sto.Val == p {
+				if a, ok := sto.Addr.(*ssa.Alloc); ok && a.Comment == p.Name() {
+					if cell, ok := fr.cells[a]; ok {
+						out[i] = c.getCell(st, cell)
+					} else if v, ok := fr.regs[a]; ok {
+						if pv, ok := v.(*PtrVal); ok {
+							out[i] = c.load(st, pv)
+						}
+					}
+				}
+			}
+		}
+	}
+	return out
 }
